@@ -1,4 +1,5 @@
 import CoapVerif.Generated.SyncShape
+import CoapVerif.Generated.SyncCallSites
 import CoapVerif.Spec.SeqMap
 import CoapVerif.Model.SyncMap
 import CoapVerif.Model.Cache
@@ -343,6 +344,65 @@ theorem range_sequential_complete (m : Entries) (now : Nat) (h : NoDupKeys m) :
     rw [rangeAlone] at h0 ⊢
     exact h0
 
+/-! ### The callers use the atomic forms
+
+The theorems above are about the methods of `Map` and `Cache`.  A caller inherits them only if it uses the atomic form: a
+store-if-absent wrapper has to be **one** `LoadOrStore` call, and a value that is only valid while it is in the map (a pooled
+message: `BlockWise.Do` deletes its entry when it returns and the request then goes back to the pool and is reset) has to be
+read **inside the callback of `LoadWithFunc`**, under the map's lock.  The extractor lists every call on a field holding a map or
+cache in the client connections, the block-wise layer, the observation table, the limiter and the multicast tables
+(Generated/SyncCallSites.lean, regenerated on every run); the obligations are decided over that list. -/
+
+section CallSites
+open CoapVerif.Generated.SyncCallSites
+
+/-- the calls a function makes on one field: (method, deferred) in source order -/
+def callsOf (fn field : String) : List (String × Bool) :=
+  (calls.filter (fun c => c.fn == fn && c.field == field)).map (fun c => (c.method, c.deferred))
+
+/-- what runs under the map's lock in the (first) call of `method` that `fn` makes on `field` -/
+def insideOf (fn field method : String) : List String :=
+  ((calls.find? (fun c => c.fn == fn && c.field == field && c.method == method)).map (·.inside)).getD []
+
+/-- no function looks a key up with a plain `Load` and later `Store`s on the same field (check-then-act in two critical sections) -/
+def noCheckThenAct : Bool :=
+  calls.all (fun c1 => calls.all (fun c2 =>
+    !(c1.file == c2.file && c1.fn == c2.fn && c1.field == c2.field && c1.method == "Load" && c2.method == "Store")))
+
+/-- fields whose values are pooled messages owned by whoever put them there (the owner deletes the entry and then releases the message) -/
+def pooledFields : List String := ["sendingMessagesCache", "multicastRequests"]
+
+/-- such values are never handed out of the lock: the only ways these fields are used -/
+def pooledReadUnderLock : Bool :=
+  calls.all (fun c => !pooledFields.contains c.field ||
+    ["LoadWithFunc", "LoadOrStore", "Store", "Delete", "CheckExpirations"].contains c.method)
+
+/-- The callers rely on the atomicity the way it is proved:
+* no check-then-act on any of the tables; pooled messages are read under the lock only;
+* the datagram connection's response cache: `Store` is exactly one `LoadOrStore`, `Load` one `Load` (the element is an
+  immutable byte slice);
+* block-wise `Do` registers its request with one `LoadOrStore` and removes it with a deferred `Delete`; `getSentRequest`
+  copies the request (acquire, code, token, options, type) and `getSendingMessageCode` reads its code inside `LoadWithFunc`;
+* a request's token handler / an observation / a multicast handler is registered with one `LoadOrStore`; the limiter's
+  per-path bookkeeping is done inside `LoadOrStoreWithFunc` / `ReplaceWithFunc`. -/
+theorem callers_use_atomic_forms :
+    noCheckThenAct = true ∧ pooledReadUnderLock = true ∧
+    callsOf "messageCache.Store" "c" = [("LoadOrStore", false)] ∧
+    callsOf "messageCache.Load" "c" = [("Load", false)] ∧
+    callsOf "BlockWise.Do" "sendingMessagesCache" = [("LoadOrStore", false), ("Delete", true)] ∧
+    callsOf "BlockWise.getSentRequest" "sendingMessagesCache" = [("LoadWithFunc", false)] ∧
+    ["AcquireMessage", "SetCode", "Code", "SetToken", "Token", "ResetOptionsTo", "Options", "SetType", "Type"].all
+      (insideOf "BlockWise.getSentRequest" "sendingMessagesCache" "LoadWithFunc").contains = true ∧
+    callsOf "BlockWise.getSendingMessageCode" "sendingMessagesCache" = [("LoadWithFunc", false)] ∧
+    (insideOf "BlockWise.getSendingMessageCode" "sendingMessagesCache" "LoadWithFunc").contains "Code" = true ∧
+    callsOf "Handler.NewObservation" "observations" = [("LoadOrStore", false)] ∧
+    callsOf "LimitParallelRequests.acquireEndpoint" "endpointQueues" = [("LoadOrStoreWithFunc", false)] ∧
+    callsOf "LimitParallelRequests.cancelEndpoint" "endpointQueues" = [("ReplaceWithFunc", false)] ∧
+    callsOf "LimitParallelRequests.releaseEndpoint" "endpointQueues" = [("ReplaceWithFunc", false)] := by
+  decide
+
+end CallSites
+
 /-! ### the judge -/
 
 /-- The executable judge that the check runs on the histories of the real code accepts only linearizable histories. -/
@@ -436,5 +496,6 @@ open CoapVerif.Props.C14
 #print axioms sweepTime_is_argument
 #print axioms range_weak_spec
 #print axioms range_sequential_complete
+#print axioms callers_use_atomic_forms
 #print axioms judge_sound
 end Audit
